@@ -42,10 +42,27 @@ class H5DataSet:
     def write_data(self, data, slc=None):
         if data is None:  # py2compat
             data = np.full(self.shape, np.nan)[slc]
+        if np.size(data) == 0 and self._selected_count(slc):
+            # h5py "broadcasts" an empty source with a leading zero-length
+            # axis to a non-empty selection and stores whatever lies behind
+            # the empty buffer; NumPy refuses such an assignment
+            raise ValueError("could not broadcast an empty input array "
+                             "into a non-empty selection")
         if slc is None:
             self.dataset[:] = data
         else:
             self.dataset[slc] = data
+
+    def _selected_count(self, slc):
+        """
+        Number of elements the index selects (None if that cannot be
+        told without h5py, which then reports what is wrong with it).
+        """
+        probe = np.broadcast_to(np.zeros((), dtype=bool), self.dataset.shape)
+        try:
+            return probe[slice(None) if slc is None else slc].size
+        except Exception:
+            return None
 
     def read_data(self, slc=None):
         if slc is None:
